@@ -112,7 +112,9 @@ Qed.
 Lemma has_impl_fuel_stable : forall c T f f' i t,
   (f <= f')%nat -> has_impl c T f i t = true -> has_impl c T f' i t = true.
 Proof.
-  intros c T f f' i t Hle. unfold has_impl, has_impl_r.
+  intros c T f f' i t Hle. unfold has_impl, has_impl_api_r.
+  destruct (fix_display_facade c && known_display_constrained T i t); [intros H; exact H|].
+  unfold has_impl_r.
   destruct (get_det T i) as [d|]; [|discriminate].
   destruct (has_impl_d c T f d t) as [b| |] eqn:E; try discriminate.
   intros Hb. subst b. rewrite (has_impl_d_le _ _ _ _ _ _ _ Hle E). reflexivity.
@@ -199,24 +201,28 @@ Proof.
     + exact H.
 Qed.
 
-Lemma has_impl_sound : forall c T f i t,
+(* the boolean of TypeEntry::has_impl (no facade) *)
+Definition has_impl_int (c : cfg) (T : space) (fuel : nat) (i : id) (t : trait) : bool :=
+  match has_impl_r c T fuel i t with HBool b => b | _ => false end.
+
+Lemma has_impl_int_sound : forall c T f i t,
   newtype_inner_ok T = true ->
-  has_impl c T f i t = true ->
+  has_impl_int c T f i t = true ->
   (fix_display_constrained c = false -> known_display_constrained T i t = false) ->
   (fix_nonzero_default c = false -> known_nonzero_default T f i t = false) ->
   implements c T f i t = true.
 Proof.
   intros c T f. induction f as [|f IH]; intros i t W H Hd Hz.
-  - unfold has_impl, has_impl_r in H. destruct (get_det T i); discriminate.
-  - unfold has_impl, has_impl_r in H. destruct (get_det T i) as [d|] eqn:G; [|discriminate].
+  - unfold has_impl_int, has_impl_r in H. destruct (get_det T i); discriminate.
+  - unfold has_impl_int, has_impl_r in H. destruct (get_det T i) as [d|] eqn:G; [|discriminate].
     destruct (has_impl_d c T (S f) d t) as [b| |] eqn:E; try discriminate. subst b.
     simpl implements. rewrite G.
     destruct (is_named d) eqn:Hn.
     + rewrite (named_sound c T f i d t W G Hn E Hd). reflexivity.
     + change (has_impl_step c T (has_impl_d c T f) d t = HBool true) in E.
       assert (Hrec : forall j t', match get_det T j with None => HPanic | Some dj => has_impl_d c T f dj t' end = HBool true ->
-                 has_impl c T f j t' = true).
-      { intros j t' H'. unfold has_impl, has_impl_r. rewrite H'. reflexivity. }
+                 has_impl_int c T f j t' = true).
+      { intros j t' H'. unfold has_impl_int, has_impl_r. rewrite H'. reflexivity. }
       assert (Hdt : forall j, fix_display_constrained c = false -> known_display_constrained T j TDefault = false).
       { intros j _. reflexivity. }
       destruct d; try discriminate Hn; unfold has_impl_step in E; unfold std_impl.
@@ -251,11 +257,58 @@ Proof.
       * (* reference *) discriminate E.
 Qed.
 
+Lemma has_impl_sound : forall c T f i t,
+  newtype_inner_ok T = true ->
+  has_impl c T f i t = true ->
+  (fix_display_constrained c = false -> fix_display_facade c = false -> known_display_constrained T i t = false) ->
+  (fix_nonzero_default c = false -> known_nonzero_default T f i t = false) ->
+  implements c T f i t = true.
+Proof.
+  intros c T f i t W H Hd Hz. unfold has_impl, has_impl_api_r in H.
+  destruct (fix_display_facade c && known_display_constrained T i t) eqn:F; [discriminate H|].
+  apply has_impl_int_sound; [exact W | exact H | | exact Hz].
+  intros Fd. destruct (fix_display_facade c) eqn:Ff; [exact F | apply Hd; [exact Fd | reflexivity]].
+Qed.
+
 Lemma has_impl_sound_repaired : forall T f i t,
   newtype_inner_ok T = true -> has_impl repaired T f i t = true -> implements repaired T f i t = true.
 Proof.
   intros T f i t W H. apply has_impl_sound; [exact W | exact H | |]; intros F; discriminate F.
 Qed.
+
+Lemma has_impl_sound_repaired_facade : forall T f i t,
+  newtype_inner_ok T = true ->
+  has_impl repaired_facade T f i t = true -> implements repaired_facade T f i t = true.
+Proof.
+  intros T f i t W H. apply has_impl_sound; [exact W | exact H | |].
+  - intros _ F; discriminate F.
+  - intros F; discriminate F.
+Qed.
+
+(* outside the Display-on-constrained class the facade repair changes no answer *)
+Lemma facade_only_changes_known : forall a b T f i t,
+  known_display_constrained T i t = false ->
+  has_impl (mkCfg a b true) T f i t = has_impl (mkCfg a b false) T f i t.
+Proof.
+  intros a b T f i t K. unfold has_impl, has_impl_api_r. simpl. rewrite K. simpl.
+  unfold has_impl_r. destruct (get_det T i) as [d|]; [|reflexivity].
+  assert (E : forall f d t, has_impl_d (mkCfg a b true) T f d t = has_impl_d (mkCfg a b false) T f d t).
+  { clear. intros f. induction f as [|f IH]; intros d t; [reflexivity|].
+    simpl. unfold has_impl_step. simpl.
+    assert (Hs : forall j t', match get_det T j with None => HPanic | Some dj => has_impl_d (mkCfg a b true) T f dj t' end
+                       = match get_det T j with None => HPanic | Some dj => has_impl_d (mkCfg a b false) T f dj t' end).
+    { intros j t'. destruct (get_det T j); [apply IH | reflexivity]. }
+    destruct d; try reflexivity.
+    - destruct t; try reflexivity; destruct c; try reflexivity; apply Hs.
+    - destruct (trait_eqb t TDefault); [apply Hs | reflexivity].
+    - destruct ((n <=? 32) && trait_eqb t TDefault); [apply Hs | reflexivity].
+    - destruct (trait_eqb t TDefault && (N.of_nat (length ts) <=? 12)); [|reflexivity].
+      induction ts as [|j r IHr]; simpl; [reflexivity|]. rewrite Hs.
+      destruct (match get_det T j with None => HPanic | Some dj => has_impl_d (mkCfg a b false) T f dj TDefault end) as [[|]| |];
+        try reflexivity. exact IHr. }
+  rewrite E. reflexivity.
+Qed.
+
 
 (* witnesses: the real dumps of corpus/C17/01 and 04 (ids as dumped) *)
 Definition wit_display : space :=
